@@ -82,6 +82,34 @@ def h_near_max(ctx):
     ctx.observe("ok", True)
 
 
+def h_mult_increase(ctx, bitrate):
+    """_multiplicative_rate_increase never raises, whatever the idle time since the last change:
+    the exponent handed to pow() stays within [0, 1] (elapsed time capped at one second), so
+    1.08 ** x cannot overflow; the result is an int >= 1000 (the contract aimd-update assumes)."""
+    from .util import Patch
+
+    a = AimdRateControl()
+    has_last = bool(ctx.bool("has_last"))
+    last = ctx.int("last_ms", 0, 1 << 40) if has_last else None
+    now = (last if has_last else 0) + ctx.int("elapsed", 0, 1 << 40)
+    exps = []
+
+    def pow_shim(base, exp, mod=None):
+        exps.append(exp)
+        ctx.check(sx.And(exp >= 0, exp <= 1), "pow-exponent-within-0..1-for-any-idle-time")
+        return float(base)  # the largest value the capped exponent allows
+
+    rate.pow = pow_shim  # shadows the builtin inside aiortc.rate only
+    try:
+        r = a._multiplicative_rate_increase(bitrate, last, now)
+    finally:
+        del rate.pow
+    ctx.reach("mult-increase-computed")
+    ctx.check(isinstance(r, int) and r >= 1000, "multiplicative-increase-is-an-int-of-at-least-1000")
+    ctx.check(len(exps) == (1 if has_last else 0), "pow-used-once-when-a-previous-change-exists")
+    ctx.observe("r", r)
+
+
 def h_clamp(ctx):
     a = AimdRateControl()
     cur = ctx.int("current_bitrate", 0, U32)
@@ -320,6 +348,7 @@ STUBS = [
 
 HARNESSES = {
     "ratecounter": Harness("ratecounter", h_ratecounter, _rc_jobs, style="BMC", bounds="window W = 2 (every add/rate sequence of length 4 with <=2 queries) and W = 3 (two sequences) in the quick tier / W in {2,3,4,5,8} ms, every add/rate sequence of length 4 (5), non-decreasing symbolic times with gaps 0..2W, sizes 0..1500", encoded=ENC, stubs=STUBS, outside=["W = 1000 as deployed (the code is parametric in the window size)"], twin="rate-queried", opts={"samples": 1}),
+    "aimd-mult-increase": Harness("aimd-mult-increase", h_mult_increase, lambda tier: [{"bitrate": b} for b in (0, 300000, 4294967295)], style="STEP", bounds="idle time since the last change 0..2^40 ms (symbolic), with / without a previous change; current bitrate 0, 300000 or 2^32-1 (concrete: float product)", encoded=ENC + ["aiortc.rate:AimdRateControl._multiplicative_rate_increase"], stubs=["pow -> checks its exponent lies in [0, 1] and returns the base (the bound on 1.08 ** x for such x)"], twin="mult-increase-computed"),
     "aimd-near-max": Harness("aimd-near-max", h_near_max, lambda tier: [{}], style="STEP", bounds="current_bitrate 0..2^32-1, rtt 0..10000 ms, elapsed 0..2^20 ms", encoded=ENC, stubs=STUBS, twin="near-max-computed"),
     "aimd-max-estimate": Harness("aimd-max-estimate", h_max_estimate, lambda tier: ([{"has_avg": False, "bits": 24}, {"has_avg": True, "bits": 12}] if tier == "quick" else [{"has_avg": False, "bits": 32}, {"has_avg": True, "bits": 16}]), style="STEP", bounds="avg = A/1000 or None, var = V/1000 with V in 400..2500, throughput = T/1000 kbit/s; without a previous average T in 0..2^24-1 (quick) / 2^32-1, with one A, T in 0..2^12-1 (quick) / 2^16-1 (the products are non-linear; 24 bits left one query undecided)", encoded=ENC + ["aiortc.rate:AimdRateControl._update_max_throughput_estimate"], stubs=["floats as exact rationals of symbolic integers (approximate reals): control flow and division-by-zero are decided on the exact values, IEEE rounding is not modelled"], twin="max-estimate-updated"),
     "aimd-clamp": Harness("aimd-clamp", h_clamp, lambda tier: [{}], style="STEP", bounds="current 0..2^32-1, new 0..2^40, throughput 0..2^32-1", encoded=ENC, stubs=STUBS, twin="clamped"),
